@@ -154,6 +154,40 @@ def campaign(c):
                     c.violation('sem:fault-order', 'a fault to the RIGHT of the first faulty operand changes the diagnostic: %s alone -> %s, with %s behind it -> %s'
                                 % (fl, ia['outcome'][:3], fr, ib['outcome'][:3]), dict(src=both.decode(), alone=alone.decode()))
             c.case(('fault-order', si, fl), dict(kind='fault-order', template=tmpl, left=fl, outcome=str(ia['outcome'][:3])) if si % 3 == 0 else None)
+    # (f1) two objects built by the same constructor call are two objects: the second one starts fresh, whatever the first has
+    #      been through (bound before or after the first is used)
+    TWINS = [('ipv4::tcp::flow(1.2.3.4:5, 6.7.8.9:80)', 'X.client_message("abc")'), ('ipv4::icmp::flow(1.2.3.4, 6.7.8.9)', 'X.echo("abc")'),
+             ('erspan2::session(1.2.3.4, 6.7.8.9)', 'X.encap(eth::frame("|000000000001|", "|000000000002|"))'), ('gre::session(1.2.3.4, 6.7.8.9, 0x6558)', 'X.encap(eth::frame("|000000000001|", "|000000000002|"))'),
+             ('io::bufio("abcdefgh")', 'eth::frame("|000000000001|", "|000000000002|", X.read(3))'), ('ipv4::udp::flow(1.2.3.4:5, 6.7.8.9:80)', 'X.client_dgram("abc")'),
+             ('vxlan::session(1.2.3.4:5, 6.7.8.9:4789)', 'X.encap(eth::frame("|000000000001|", "|000000000002|"))'), ('ipv4::frag(1.2.3.4, 6.7.8.9, "0123456789abcdef")', 'X.fragment(0, 1)')]
+    pre2 = 'import ipv4;\nimport eth;\nimport io;\nimport erspan2;\nimport gre;\nimport vxlan;\n'
+    for ctor, use in TWINS:
+        fresh = core.run_cli((pre2 + 'let a = %s;\n%s;\n' % (ctor, use.replace('X', 'a'))).encode())
+        f0 = [x[1] for x in progdiff.pcap_records(fresh['pcap'] or b'')]
+        for shape in ('let a = C;\nlet b = C;\nUA;\nUA;\nUB;\n', 'let a = C;\nUA;\nUA;\nlet b = C;\nUB;\n', 'let a = C;\nlet b = C;\nlet c = C;\nUA;\nUC;\nUA;\nUB;\n'):
+            src = (pre2 + shape.replace('UA', use.replace('X', 'a')).replace('UB', use.replace('X', 'b')).replace('UC', use.replace('X', 'c')).replace('= C;', '= ' + ctor + ';')).encode()
+            impl, model = progdiff.run_both(c, src)
+            progdiff.compare(c, src, impl, model, 'twin-objects')
+            recs = [x[1] for x in progdiff.pcap_records(impl['file'] or b'')]
+            if impl['outcome'][0] != 'success' or not f0 or recs[-len(f0):] != f0:
+                c.violation('sem:twin-objects', 'an object built by the same constructor call as an earlier one does not start fresh (%s)' % ctor, dict(src=src.decode()))
+        c.case(('twin', ctor), dict(kind='twin-objects', ctor=ctor))
+    # (f2) emitting a stored packet sequence through its name is the same as emitting it where it was computed: the same records
+    #      with the same timestamps (`E;` against `let x = E; x;`, also with a second name for the value and a second emission)
+    GENS = ['f.open()', 'f.client_message("abc")', 'f.server_message("0123456789")', 'f.client_close()', 'dns::host(1.2.3.4, "a.example", 10.0.0.1, 10.0.0.2)',
+            'vx.encap(f.open())', 'g.encap(f.client_message("xyz"))', 'f.client_message(send_ack: false, "one packet")', 'u.client_dgram("abc")']
+    pre3 = 'import ipv4;\nimport dns;\nimport vxlan;\nimport gre;\nlet f = ipv4::tcp::flow(1.2.3.4:5, 6.7.8.9:80);\nlet u = ipv4::udp::flow(1.2.3.4:5, 6.7.8.9:53);\nlet vx = vxlan::session(1.1.1.1:1, 2.2.2.2:4789);\nlet g = gre::session(1.1.1.1, 2.2.2.2, 0x6558);\nu.server_dgram("before");\n'
+    for e in GENS:
+        direct = core.run_cli((pre3 + e + ';\nu.server_dgram("after");\n').encode())
+        for shape in ('let x = E;\nx;\n', 'let x = E;\nlet y = x;\ny;\n', 'let x = E;\nlet y = x;\nx;\n'):
+            src = (pre3 + shape.replace('E', e) + 'u.server_dgram("after");\n').encode()
+            impl, model = progdiff.run_both(c, src)
+            progdiff.compare(c, src, impl, model, 'stored-emission')
+            if impl['outcome'][0] != 'success' or impl['file'] != direct['pcap']:
+                A, B = progdiff.pcap_records(direct['pcap'] or b''), progdiff.pcap_records(impl['file'] or b'')
+                what = 'timestamps' if [x[1] for x in A] == [x[1] for x in B] else 'records'
+                c.violation('sem:stored-emission', 'emitting a stored value by name gives other %s than emitting the expression itself (%s)' % (what, e), dict(src=src.decode(), times_direct=[x[0] for x in A][:8], times_stored=[x[0] for x in B][:8]))
+        c.case(('stored-emission', e), dict(kind='stored-emission', expr=e))
     # (f) left-to-right evaluation with a stateful buffer
     for i in range(20 if c.quick else 300):
         r = c.rng.fork('ord%d' % i)
